@@ -31,8 +31,24 @@ func handlerInstalls(p *load.Program) []handlerInstall {
 	for _, f := range pkgFuncs(p, R) {
 		kit.AllInstrs(f, func(in ssa.Instruction) {
 			mu, ok := in.(*ssa.MapUpdate)
-			if !ok || !loadOfField(mu.Map, hf) {
+			if !ok {
 				return
+			}
+			if !loadOfField(mu.Map, hf) {
+				// a table built as a literal (make + updates on the new map) and then stored into
+				// the field
+				mk, isMk := kit.Strip(mu.Map).(*ssa.MakeMap)
+				stored := false
+				if isMk {
+					for _, w := range kit.DirectWrites(f) {
+						if w.Field == hf && w.Kind == "store" && kit.Strip(w.Val) == ssa.Value(mk) {
+							stored = true
+						}
+					}
+				}
+				if !stored {
+					return
+				}
 			}
 			key, _ := kit.ConstString(mu.Key)
 			out = append(out, handlerInstall{mu, f, key, kit.FuncValueTarget(mu.Value)})
